@@ -4,7 +4,7 @@ import json, os
 HERE = os.path.dirname(os.path.dirname(os.path.abspath(__file__)))
 props = [json.loads(l) for l in open(os.path.join(HERE, "properties.jsonl"))]
 
-KERN = 'the interpreter that maps op records to API calls (harness/drivers/kernel.py) and TLC are trusted; bounds as listed in the evidence; integer delays only'
+KERN = 'the interpreter that maps op records to API calls (harness/drivers/kernel.py) and TLC are trusted; bounds as listed in the evidence; integer delays in the exhaustive runs, float delays in generated programs'
 BUILT = {
 
  "C06": dict(
@@ -28,15 +28,15 @@ BUILT = {
    design="6/C09"),
  "C01": dict(
    technique="TLA+ spec SimKernel.tla model-checked with TLC over all programs within bounds; every emitted program replayed on the real kernel and logs compared; generated larger programs validated by TLC (KernelTrace)",
-   text="The implementation-shaped kernel specification (agenda, event life cycle, callback lists, processes, interrupts) is explored exhaustively with nondeterministic programs (every program of <=3 processes x 2 ops / 2 x 3 over timeouts 0/1/2, shared events, joins, spawns, interrupts, negative delay) with time-order, agenda and life-cycle invariants; each emitted program is executed on the real onl.sim kernel and its complete observable log (resumptions with instants and values, probe callbacks of every event, refused calls, run() outcome) must equal the specification's; larger on-the-fly generated programs are validated in the other direction by TLC.",
-   note=KERN, design="6/C01"),
+   text="The implementation-shaped kernel specification (agenda, event life cycle, callback lists, processes, interrupts) is explored exhaustively with nondeterministic programs (every program of <=3 processes x 2 ops / 2 x 3 over timeouts 0/1/2, shared events, joins, spawns, interrupts, negative delay) with time-order, agenda and life-cycle invariants; each emitted program is executed on the real onl.sim kernel and its complete observable log (resumptions with instants and values, probe callbacks of every event, refused calls, run() outcome) must equal the specification's; larger on-the-fly generated programs (also with float delays, handled by rank abstraction of the exact float sums t0 + d, and tiny negative delays) are validated in the other direction by TLC (KernelTrace), final event states included; the agenda of every Environment created by the repository's own 119 tests and nine demo programs is recorded through a pytest plug-in and validated against AgendaTrace.tla.",
+   note=KERN, design="6/C01, Part II 11"),
  "C02": dict(
    technique="TLA+ spec SimKernel.tla model-checked with TLC (alphabet: succeed/fail, several waiters, catching/non-catching yields, child return/raise, double triggers); emitted programs replayed on the real kernel; generated programs validated by TLC",
    text="Same machinery as C01 with the alphabet of C02: SingleWait, LifeCycle, ProbeOnce and DeliveredIsEventOutcome are checked on every reachable state; the logs compared include the value or exception (type and args) received at every yield, the outcome of every process event and the exception escaping run().",
    note=KERN, design="6/C02"),
  "C03": dict(
    technique="TLA+ spec SimKernel.tla with top-level plans (run / run(until=number) / run(until=event) / step) model-checked with TLC; emitted programs-with-plans replayed; generated ones validated by TLC, re-executed under three hash seeds and against the uninterrupted run",
-   text="TLC enumerates every plan of <=3 stop commands over every program within the bounds (stop instants coinciding with due events, until <= now, until-events already processed); logs incl. every return value / exception of run() and peek() after every step() must equal the specification's. Generated programs with longer plans are validated by TLC, re-run in separate interpreters under PYTHONHASHSEED 0/1/4242 (identical logs required) and compared with the same processes under uninterrupted run() calls (process-visible log must be a prefix).",
+   text="TLC enumerates every plan of <=3 stop commands over every program within the bounds (stop instants coinciding with due events, until <= now, until-events already processed); logs incl. every return value / exception of run() and peek() after every step() must equal the specification's. Generated programs with longer plans (also with float stop instants) are validated by TLC, re-run in separate interpreters under PYTHONHASHSEED 0/1/4242 (identical logs required) and compared with the same processes under uninterrupted run() calls (process-visible log must be a prefix); routing (hubs with string ids), scheduler and port scenarios (half of the RED ones on the real, program-seeded random generator) are executed twice in one interpreter and under the three hash seeds, traces must be identical. The thorough tier also checks liveness (every run()/step() returns) under weak fairness.",
    note=KERN + "; hash seeds are sampled, not quantified", design="6/C03"),
  "C04": dict(
    technique="TLA+ spec SimKernel.tla model-checked with TLC (alphabet: interrupt, spawn, sleep, catching/non-catching yields, raise); emitted programs replayed on the real kernel; generated programs validated by TLC",
